@@ -25,6 +25,7 @@ RULE = ('cases = (reader/pipeline mode, option bits, arbitrary bytes); streams: 
         'valid programs; valid multi-directive / multi-step programs with small atoms through every lpconvert pipeline and the binary under every option set '
         '(a third damaged in one place); first rules whose head fills the rule builder\'s memory block exactly, long heads (9..14, 20+) / bodies (5..12) in random programs; '
         'multi-step theory programs (1-4 steps) incl. steps that define terms/elements but no theory atom and later steps that re-define earlier ids and use them; '
+        'theory programs with ONE directive the text writer has to refuse (a term / element id defined twice within a step - same or other content -, a theory atom with an unknown element / name term; directly behind the repeated directive, in the middle, last in the step) through aspif->text, lpconvert -t and - control, nothing refused - the reader alone, plus fixed inputs of these shapes: a refused conversion reports one error and leaves nothing allocated; '
         'each at the shipped buffer size and hooked sizes 16/67; '
         ''
         'every other case (hash of the case) is read by a reader OBJECT that before read or REFUSED one of the aspif / smodels / text primer texts of harness/reuse.h (accepted incremental ones; refused at every stage, the smodels ones with symbol tables that bind common names, _edge and _heuristic predicates; reader modes 0-2); '
@@ -563,8 +564,64 @@ def ground_text(rnd):
     return ('\n'.join(st) + '\n').encode()
 
 
-def coherent_theory_program(rnd, redefine=None):
-    """A valid (mostly incremental) program of 1-4 steps whose theory data is referentially consistent and acyclic: terms before use,
+REFUSED_KINDS = ['term', 'term', 'elem', 'elem', 'elem', 'atom-unknown']
+REFUSED_POS = ['first', 'middle', 'last']
+
+
+def refuse_in_step(rnd, prog, kind=None, pos=None):
+    """The "refused" flavour of a theory program: ONE theory directive that a TheoryData-backed consumer (AspifTextOutput = lpconvert -t) has
+    to refuse, inserted into a random step:
+      'term' / 'elem'  a term / element id that this step has defined already is defined AGAIN in the same step (same or different content,
+                       every term kind) - "Redefinition of theory term / element" (re-defining an id of an EARLIER step is legal and is what
+                       `redefine` does);
+      'atom-unknown'   a theory atom that names an element / term id nothing has defined (refused when the step is written);
+    placed 'first' (directly behind the directive it repeats; for an unknown id: first directive of the step), in the 'middle' (anywhere
+    behind it) or 'last' (last directive of the step).  The aspif READER checks none of this (mode 0 = control: accepted); the text pipeline
+    reports exactly one error and must leave nothing allocated (seeded change C04-r9: the refused addElement leaked the element it had built
+    before the check).  Returns (program, tag)."""
+    prog = list(prog)
+    begins = [i for i, c in enumerate(prog) if c[0] == 2]
+    if not begins:
+        return prog, 'none'
+    kind = kind or rnd.choice(REFUSED_KINDS)
+    pos = pos or rnd.choice(REFUSED_POS)
+    for _ in range(8):
+        b = rnd.choice(begins)
+        e = min(i for i, c in enumerate(prog) if c[0] == 3 and i > b)
+        tdefs = [i for i in range(b + 1, e) if prog[i][0] in (13, 14, 15)]
+        edefs = [i for i in range(b + 1, e) if prog[i][0] == 16]
+        if kind == 'term' and tdefs:
+            i = rnd.choice(tdefs)
+            t = prog[i][1]
+            k = rnd.random()
+            dup = prog[i] if k < 0.4 else (13, t, rnd.choice([0, 5, -1])) if k < 0.6 else (14, t, rnd.choice([b'q', b'f', b'+'])) if k < 0.8 else \
+                (15, t, rnd.choice([-1, -2, -3]), [prog[rnd.choice(tdefs)][1] for _ in range(rnd.randint(0, 3))])
+            break
+        if kind == 'elem' and edefs:
+            i = rnd.choice(edefs)
+            c = prog[i]
+            known = [x[1] for x in prog[:e] if x[0] in (13, 14, 15)] or [0]
+            k = rnd.random()
+            dup = c if k < 0.4 else (16, c[1], [rnd.choice(known) for _ in range(rnd.randint(0, 4))], [C.r_lit(rnd, 5) for _ in range(rnd.choice([0, 0, 1, 2]))])
+            break
+        if kind == 'atom-unknown':
+            i = b
+            syms = [x[1] for x in prog[:e] if x[0] == 14]
+            name = rnd.choice(syms) if syms and rnd.random() < 0.7 else rnd.choice([40, 41, 99])
+            es = [rnd.choice([40, 41, 99])] if name in syms or rnd.random() < 0.5 else []      # an unknown element and / or an unknown name term
+            dup = (17, rnd.choice([0, rnd.randint(6, 9)]), name, es)
+            break
+        kind = rnd.choice(['term', 'elem', 'atom-unknown'])
+    else:
+        return prog, 'none'
+    at = i + 1 if pos == 'first' else e if pos == 'last' else rnd.randint(i + 1, e)
+    prog.insert(at, dup)
+    return prog, '%s-%s' % (kind, pos)
+
+
+def coherent_theory_program(rnd, redefine=None, refused=None):
+    """`refused` (default: 8 % of the programs): the program additionally gets one directive the text writer refuses (refuse_in_step).
+    A valid (mostly incremental) program of 1-4 steps whose theory data is referentially consistent and acyclic: terms before use,
     elements with and without conditions, atoms (with/without guard) that reference elements and terms defined in the SAME or an EARLIER
     step.  With `redefine` (multi-step programs only): some steps define terms / elements but NO theory atom, and later steps RE-DEFINE term
     and element ids of earlier steps with different content (legal: an id need only be unique within one step) and then use them in atoms
@@ -630,11 +687,16 @@ def coherent_theory_program(rnd, redefine=None):
             else:
                 prog.append((17, rnd.choice([0, rnd.randint(6, 9)]), rnd.choice(syms), es))
         prog.append((3,))
+    if refused is None:
+        refused = rnd.random() < 0.08
+    if refused:
+        prog = refuse_in_step(rnd, prog)[0]
     return prog
 
 
-def cyclic_theory_program(rnd):
-    """Malformed but syntactically valid: theory terms that refer to themselves / each other through the function symbol or an argument
+def cyclic_theory_program(rnd, refused=None):
+    """`refused` (default: 15 %): additionally one same-step redefinition / unknown id (refuse_in_step) - two errors, the first one is reported.
+    Malformed but syntactically valid: theory terms that refer to themselves / each other through the function symbol or an argument
     (with 0, 1 or several arguments), used by an atom. Writers must report an error, never recurse without bound."""
     n = rnd.choice([1, 1, 2, 3])
     ids = list(range(5, 5 + n))
@@ -654,6 +716,10 @@ def cyclic_theory_program(rnd):
     else:
         prog.append((18, 0, 2, [], 2, ids[0]))                   # as guard rhs
     prog.append((3,))
+    if refused is None:
+        refused = rnd.random() < 0.15
+    if refused:
+        prog = refuse_in_step(rnd, prog)[0]
     return prog
 
 
@@ -745,6 +811,22 @@ def gen(seed, tier):
         (4, 0, b'asp 1 0 0 incremental\n1 1 1 1 0 0\n9 1 0 4 load\n9 0 1 10\n9 4 0 1 1 0\n0\n9 0 1 20\n9 4 0 1 1 1 1\n9 5 0 0 1 0\n0\n9 0 1 30\n9 4 0 1 1 0\n9 5 0 0 1 0\n0\n'),
         (7, 4, b'asp 1 0 0 incremental\n1 1 1 1 0 0\n9 1 0 4 load\n9 0 1 10\n9 4 0 1 1 0\n0\n9 0 1 20\n9 4 0 1 1 1 1\n9 5 0 0 1 0\n0\n9 0 1 30\n9 4 0 1 1 0\n9 5 0 0 1 0\n0\n'),
     ]
+    # seeded change C04-r9: a theory id re-defined WITHIN one step is refused by the text writer's TheoryData ("Redefinition of theory
+    # element / term"); nothing may stay allocated after the refused conversion.  The demo's input (element 0 twice), every term kind twice,
+    # the duplicate as last directive of the step, in the second step of an incremental program behind a LEGAL redefinition, an element
+    # with terms and a condition, an atom naming an unknown element - reader alone (mode 0: accepted, control), text pipeline, binary -t
+    refused_inputs = [
+        b'asp 1 0 0\n9 0 1 1\n9 1 0 1 a\n9 4 0 1 1 0\n9 4 0 1 1 0\n9 5 0 0 1 0\n0\n',
+        b'asp 1 0 0\n9 0 1 1\n9 1 0 1 a\n9 4 0 1 1 0\n9 5 0 0 1 0\n9 4 0 3 1 0 1 2 2 -3\n0\n',
+        b'asp 1 0 0\n9 4 0 0 0\n9 4 0 0 0\n0\n',
+        b'asp 1 0 0\n9 0 1 1\n9 0 1 2\n9 1 0 1 a\n9 5 0 0 0\n0\n',
+        b'asp 1 0 0\n9 1 0 1 a\n9 1 0 1 a\n9 5 0 0 0\n0\n',
+        b'asp 1 0 0\n9 1 0 1 a\n9 0 1 7\n9 2 2 0 1 1\n9 5 0 0 0\n9 2 2 -1 2 1 1\n0\n',
+        b'asp 1 0 0 incremental\n9 0 1 1\n9 1 0 1 a\n9 4 0 1 1 0\n9 5 0 0 1 0\n0\n9 4 0 1 1 1 2\n9 5 0 0 1 0\n9 4 0 1 1 0\n0\n',
+        b'asp 1 0 0\n9 1 0 1 a\n9 5 0 0 1 7\n0\n',
+    ]
+    for d in refused_inputs:
+        fixed += [(0, 0, d), (4, 0, d), (7, 4, d)]
     for m, o, d in fixed:
         for v in (0, 1, 2):
             out.append((mk(m, o, d, v), {'kind': 'regression-shape'}))
@@ -779,6 +861,24 @@ def gen(seed, tier):
             if announces_big(data):
                 continue
             out.append((mk(tgt, o, data, variant), {'kind': kind}))
+            continue
+        if rnd.random() < 0.06:
+            # theory programs with ONE directive the text writer refuses (same-step redefinition of a term / element id, atom with an unknown
+            # id; first / middle / last in the step): text pipeline, binary -t, and the reader alone (control: nothing is refused there)
+            for _ in range(6):
+                C.BIG_ATOMS = False
+                try:
+                    prog = cyclic_theory_program(rnd, refused=False) if rnd.random() < 0.1 else coherent_theory_program(rnd, refused=False)
+                finally:
+                    C.BIG_ATOMS = True
+                prog, tag = refuse_in_step(rnd, prog)
+                data = aspif_text(prog, rnd)
+                if not announces_big(data):     # a number term 2147483647 announces nothing, but the filter is syntactic: draw again
+                    break
+            else:
+                continue
+            m, o = rnd.choice([(4, 0), (4, 0), (4, 0), (7, 4), (7, 4), (0, 0)])
+            out.append((mk(m, o, data, 0 if m == 7 else variant), {'kind': 'theory-refused-' + tag}))
             continue
         fam = rnd.choice(['aspif', 'aspif', 'smodels', 'smodels', 'text'])
         if rnd.random() < 0.04:
